@@ -16,7 +16,7 @@ def run(tier):
     nacc = 0
     for x, cn, r in zip(ctx.base, canon, res):
         if isinstance(r, tuple):
-            if cn: note(asmcheck.klass('rt:raises-' + r[1], x), x['b'], 'asm(%r) raises %s; the line is the rendering of the canonical encoding %s' % (x['intel'], r[1], x['b']))
+            if cn: note(asmcheck.klass('rt:raises', x), x['b'], 'asm(%r) raises %s; the line is the rendering of the canonical encoding %s' % (x['intel'], r[1], x['b']))
             continue
         nacc += 1
         if cn and x['b'] not in r:
@@ -41,7 +41,7 @@ def run(tier):
     for (kind, it), k, r in zip(again, idx, res2):
         c = cl[k]; line, x = cands[c]
         if isinstance(r, tuple):
-            note(asmcheck.klass('rt:rendering-of-candidate-raises-' + r[1], x), c, 'candidate %s of asm(%r) renders as %r, which asm rejects with %s' % (c, line, it, r[1]))
+            note(asmcheck.klass('rt:rendering-of-candidate-raises', x), c, 'candidate %s of asm(%r) renders as %r, which asm rejects with %s' % (c, line, it, r[1]))
         elif c not in r:
             note(asmcheck.klass('rt:candidate-not-fixpoint', x), c, 'candidate %s of asm(%r) renders as %r, whose candidates %s do not contain it' % (c, line, it, r[:6]))
     chk.cov['evaluations'] = len(ctx.base) + len(cl) + len(again); chk.cov['accepted_lines'] = nacc; chk.cov['canonical_strings'] = sum(canon)
